@@ -86,4 +86,26 @@ WorkBound(deg, refine) == ((IF deg >= 4 THEN deg ELSE 0) + (IF refine THEN deg E
 RECURSIVE SkRunFrom(_)
 SkRunFrom(s) == IF SkFinal(s) THEN s ELSE IF s.pc = "dispatch" THEN SkRunFrom(SkDispatch(s, TRUE)) ELSE SkRunFrom(SkIter(s, "converged"))
 SkRun(deg, refine) == SkRunFrom(SkInit(deg, refine))
+
+(* ---------------------------- backward-error guards, per path ---------------------------- *)
+(* The path a call takes is determined by (degree, refine).  For each path the worst normwise backward error of  *)
+(* the unchanged crate was calibrated over 22 seeds / 1.75e6 calls (classes of the known findings excluded) and  *)
+(* the guard frozen at >= 100x that value.  Two integer scales are logged: be_e15 = ceil(be / 1e-15) (saturating *)
+(* at 2^30, i.e. ~1e-6) and be_units = ceil(be / 1e-6).                                                          *)
+(*   path                 worst conforming      guard                                                           *)
+(*   degree 1             <= 1e-15              1e-13                                                            *)
+(*   degree 2             2e-15                 2e-13                                                            *)
+(*   degree 3, refined    2e-15                 2e-13                                                            *)
+(*   degree 3, unrefined  1.3e-7 (Cardano's discriminant cancels for near-multiple roots)   1e-4                 *)
+(*   degree >= 4, refined 5e-15                 5e-13                                                            *)
+(*   degree >= 4, unref.  6.3e-11 (deflation)   1e-8                                                             *)
+Sat30 == 1073741824
+BeGuardE15(deg, refine) == CASE deg = 1 -> 100
+                             [] deg = 2 -> 200
+                             [] deg = 3 /\ refine -> 200
+                             [] deg = 3 /\ ~refine -> Sat30                    \* judged on the coarse scale
+                             [] deg >= 4 /\ refine -> 500
+                             [] OTHER -> 10000000
+BeGuardE6(deg, refine) == IF deg = 3 /\ ~refine THEN 100 ELSE 1
+BeOK(deg, refine, e15, e6) == e15 <= BeGuardE15(deg, refine) /\ e6 <= BeGuardE6(deg, refine)
 =============================================================================
